@@ -209,3 +209,7 @@ impl webpki_types::SignatureVerificationAlgorithm for Ed25519Dalek {
         false
     }
 }
+
+#[cfg(kani)]
+#[path = "/verif/kani/iroh/verifier.rs"]
+mod verif_kani;
